@@ -66,6 +66,7 @@ type FakePool struct {
 	Manual   bool   // handshake requests are only recorded: the test answers them itself (C15)
 	JobN     int
 	DialFail bool
+	CloseOn  string // the pool hangs up when it receives this method (a failure during the handshake)
 	Rec      *Rec
 	Mu       sync.Mutex
 	Conns    []*FakePoolConn
@@ -138,6 +139,14 @@ func (pc *FakePoolConn) Run() {
 				return Tok(string(msg.Params[i]))
 			}
 			return Tok(s)
+		}
+		if p.CloseOn != "" && msg.Method == p.CloseOn {
+			p.Rec.Add(pc.Stream(), "hangs-up-on %s", msg.Method)
+			pc.Wmu.Lock()
+			pc.Closed = true
+			pc.Wmu.Unlock()
+			pc.C.Close()
+			return
 		}
 		switch msg.Method {
 		case "mining.configure":
